@@ -1168,9 +1168,10 @@ def reduction(
     split_every: int >= 2 or dict(axis: int), optional
         The number of chunks to combine in one round along each axis in the
         recursive aggregation.
-    combine_sizes: dict(axis: int), optional
+    combine_sizes: dict(axis: int or tuple of ints), optional
         The resulting size of each axis after reduction. Each reduction axis
-        defaults to size one if not specified.
+        defaults to size one if not specified. A tuple gives the size of each
+        output chunk along the axis explicitly.
     extra_func_kwargs: dict, optional
         Extra keyword arguments to pass to ``func`` and ``combine_func``.
     """
@@ -1309,16 +1310,22 @@ def partial_reduce(
         recursive aggregation.
     dtype: dtype
         Output data type.
-    combine_sizes: dict(axis: int), optional
+    combine_sizes: dict(axis: int or tuple of ints), optional
         The resulting size of each axis after reduction. Each reduction axis
-        defaults to size one if not specified.
+        defaults to size one if not specified. A tuple gives the size of each
+        output chunk along the axis explicitly.
     """
     # map over output chunks
     axis = tuple(ax for ax in split_every.keys())
     combine_sizes = combine_sizes or {}
     combine_sizes = {k: combine_sizes.get(k, 1) for k in axis}
     chunks = tuple(
-        (combine_sizes[i],) * math.ceil(len(c) / split_every[i])
+        (
+            # explicit (possibly ragged) chunks for this axis
+            combine_sizes[i]
+            if isinstance(combine_sizes[i], tuple)
+            else (combine_sizes[i],) * math.ceil(len(c) / split_every[i])
+        )
         if i in split_every
         else c
         for (i, c) in enumerate(x.chunks)
@@ -1665,13 +1672,17 @@ def scan(
         return a
 
     split_size = min(split_every, array.numblocks[axis])
+    # each block contributes one value, so the last group is smaller if the
+    # number of blocks is not a multiple of split_size
+    nfull, nrest = divmod(array.numblocks[axis], split_size)
+    reduced_chunks = (split_size,) * nfull + ((nrest,) if nrest else ())
     reduced = partial_reduce(
         array,
         initial_func=partial(preop, axis=axis, keepdims=True),
         func=identity_func,
         split_every={axis: split_size},
         dtype=dtype,
-        combine_sizes={axis: split_size},
+        combine_sizes={axis: reduced_chunks},
     )
 
     # 3. Now scan `reduced` to generate the increments for each block of `scanned`.
